@@ -35,7 +35,7 @@ class Sub:
     sample_view: Optional[Callable[[Any], Any]] = None  # how a case is shown in evidence samples
 
 def load_known(prop_id):
-    path = os.path.join(VERIF_HOME, "known_findings.json")
+    path = os.environ.get("VERIF_KNOWN_FILE") or os.path.join(VERIF_HOME, "known_findings.json")
     if not os.path.exists(path):
         return {}
     with open(path) as f:
